@@ -7,6 +7,7 @@ import PegVerif.Exec.Driver
   where `tree` has the shape of pegx's dump and `compileError` is the text of the error `Compile`
   returns before doing anything else when the builder recorded errors (pegx: `frontError`).  `runes` is Go's `[]rune(text)` (peglib.runes_of).
   Default fuel: 64 · (number of runes) + 4096 (the recursion depth of `evalF`, not its step count).
+  `pegmodel casemap`: the model's `strings.ToLower` / `strings.ToUpper` on every code point (below).
 -/
 namespace PegVerif
 open Lean
@@ -28,6 +29,27 @@ def frontMain : IO UInt32 := do
   let stdin ← IO.getStdin
   let stdout ← IO.getStdout
   lineLoop stdin stdout frontOne
+  stdout.flush
+  return 0
+
+/-- `pegmodel casemap`: for every code point `r` (surrogates excepted) whose lower or upper case
+    string differs from the one-rune string `r`, the line `r lower upper` — the runes of
+    `toLowerS [r]` and `toUpperS [r]` separated by commas.  Same format as `pegx -casemap`
+    (harness/pegx/casex.go.txt), which prints the real `strings.ToLower` / `strings.ToUpper`. -/
+def casemapMain : IO UInt32 := do
+  let stdout ← IO.getStdout
+  let show_ (s : List Sym) : String := ",".intercalate (s.map toString)
+  let mut buf : String := ""
+  for r in [0:0x110000] do
+    if 0xD800 ≤ r ∧ r ≤ 0xDFFF then continue
+    let lo := toLowerS [r]
+    let up := toUpperS [r]
+    if lo ≠ [r] ∨ up ≠ [r] then
+      buf := buf ++ s!"{r} {show_ lo} {show_ up}\n"
+    if buf.length > 60000 then
+      stdout.putStr buf
+      buf := ""
+  stdout.putStr buf
   stdout.flush
   return 0
 
